@@ -14,12 +14,15 @@ theorem routeList_msgs (ms : List (Msg P)) : routeList (ms.map JVal.msg) = ms :=
 theorem routeAll_batch (ms : List (Msg P)) : routeAll (.arr (ms.map JVal.msg)) = ms := by
   simp [routeAll, routeList_msgs]
 
-/-- the messages of a conformant SSE rendering: those of its events, in order -/
+/-- the messages of a conformant SSE rendering: those of its events that have data, in order -/
 theorem sseMsgs_render (dec : Dec P) (evs : List Event) (eols : List Bool) (tail : Tail)
     (h : ∀ e ∈ evs, Conformant e = true) :
     sseMsgs dec (renderText evs eols tail) =
-      evs.flatMap (fun e => sseEventMsgs dec (effType e.name, joinNl e.data)) := by
-  simp [sseMsgs, parseText_render evs eols tail h, List.flatMap_map, evOut]
+      evs.flatMap (fun e => if e.data = [] then [] else sseEventMsgs dec (effType e.name, joinNl e.data)) := by
+  simp only [sseMsgs, parseText_render evs eols tail h, List.flatMap_assoc]
+  congr 1
+  funext e
+  by_cases hd : e.data = [] <;> simp [evOuts, evOut, hd]
 
 theorem outcome_of_internal_ne (dec : Dec P) (id : Option Id) (b : Behaviour)
     (h : internal dec id b ≠ []) : outcome dec id b = internal dec id b := by
